@@ -48,6 +48,18 @@ CHECKS = {
   text="(b) the real merge_small_dims with symbolic integer dims and threshold: z3 proves per path product preservation and that the output is a fusion of consecutive runs of the non-1 dims with every fused run within the threshold; (c) bounded symbolic differential: optimizer on a tensor under a blocking vs optimizer on its blocks as separate parameters, parameters and per-block state proved equal; (a) tiling relations (views, exact cover, row-major order within the merged shape, limit, gradient index sets) by exhaustive enumeration of shapes/limits on the stand-in's exact view semantics.",
   note="Trusted: part (a) is enumeration of concrete shapes (order 0..4, dims<=3 quick / 4 thorough, limits 1..6), not solver-quantified; (b) dims/threshold 1..64, order<=4; (c) as C01, T=2, generic regime.",
   ref="DESIGN.md section 3 C05"),
+ "C10": dict(
+  text="Bounded symbolic model checking of the real matrix_functions.py over exact real arithmetic with eigh/qr as environment stubs: dispatch and error cases; the scalar fast path equals the spectral value on PSD input (all three configurations); coupled Newton starts from z*A_ridge with z=(p+1)/(2|A_ridge|_F), keeps M = X^p(A+eps I) on the returned pair, reports CONVERGED only if the last computed error (of the returned M) meets the tolerance; the higher-order solver starts from A_ridge/trace, returns only if |A_ridge X^p - I|_inf <= 0.1, else raises, and restores the tf32 flag on every path. The floating-point accuracy bound of the property is NOT decided.",
+  note="Claim strength: exact-arithmetic limit (u -> 0) and control flow only; n=2, root<=2 (3 thorough), <=2 (3) iterations; norms are atoms recording their arguments; convergence to the principal root from the proved start is the cited theorem, not proved here; diagonal fast path is covered in C11.",
+  ref="DESIGN.md section 3 C10"),
+ "C11": dict(
+  text="Bounded symbolic model checking of the real eigendecomposition-based inverse root over the eigh stub with arbitrary real ascending eigenvalues (zero and negative included), symbolic epsilon: every argument of the fractional power is >= epsilon on every path (finite result, eigenvalues <= eps^(-1/r) by monotonicity), the output is Q D Q^T of the decomposed matrix (A, or A+eps I with enhance_stability) hence symmetric, the float64 retry, root and shape validation; diagonal fast path equals the general path on diagonal PSD input.",
+  note="Trusted: eigh stub (ascending eigenvalues, fresh Q; LAPACK's contract); n<=3, roots 2,4,3/2; commutation and orthogonal equivariance are consequences of the proved spectral form and are not discharged as queries; float overflow/underflow outside the claim.",
+  ref="DESIGN.md section 3 C11"),
+ "C12": dict(
+  text="Bounded symbolic model checking of the real eigenvector routines around the eigh/qr stubs: 1x1 and diagonal-flag fast paths, shape validation, eigh configuration returns the decomposition's Q of the input, zero estimate falls back to eigh, QR iteration factors A@Q_prev each step, stops exactly by the relative-change/tolerance rule or the count, and returns the last Q with columns in ascending Rayleigh-quotient order (all orderings explored, z3 on linearised normal forms).",
+  note="Trusted: orthonormality / ordering / diagonalisation of eigh and qr outputs are LAPACK's contract (assumed); the fixed-point clause is not decided; n<=3, max_iterations<=3 (n=2) / 1 (n=3).",
+  ref="DESIGN.md section 3 C12"),
 }
 NA = {
  "C18": "the compiled step exists only as TorchDynamo/AOTAutograd output traced over real torch; it cannot be executed on symbolic tensors or translated to SMT within reach",
